@@ -416,6 +416,64 @@ theorem handBack_init (N : NumOps) (f : Format) (qs : List (List Json)) :
   | nil => rfl
   | cons q qs ih => simp only [List.map_cons, List.zipWith_cons_cons, List.nil_append, ih]
 
+/-! ### the main thread's sequential writes, and schedules seen from the queues alone -/
+
+theorem writeSeq_spec (N : NumOps) (rs : List Json) (s : FileSink) (hp : s.poisoned = false)
+    (hw : ∀ r ∈ rs, Writable N s.format r) :
+    ∃ s', writeSeq N s rs = some (s', rs.map (postOf N s.format)) ∧
+      s'.file = s.file ++ rs.map (recordOf N s.format) ∧ s'.iterations = s.iterations + rs.length ∧
+      s'.format = s.format ∧ s'.poisoned = false := by
+  induction rs generalizing s with
+  | nil => exact ⟨s, rfl, by simp, rfl, rfl, hp⟩
+  | cons r rs ih =>
+    obtain ⟨s₁, hs₁, hfile, hit, hfmt, hpo, _⟩ :=
+      write_ok_of_writable N s r hp (hw r (List.mem_cons_self ..))
+    obtain ⟨s₂, hs₂, hfile₂, hit₂, hfmt₂, hpo₂⟩ :=
+      ih s₁ hpo (fun x hx => by rw [hfmt]; exact hw x (List.mem_cons_of_mem _ hx))
+    refine ⟨s₂, ?_, ?_, ?_, by rw [hfmt₂, hfmt], hpo₂⟩
+    · simp only [writeSeq, hs₁, hs₂, hfmt, List.map_cons]
+    · rw [hfile₂, hfile, hfmt]; simp
+    · rw [hit₂, hit]; simp; omega
+
+/-- one scheduled step, seen from the queues alone -/
+def drainStep (qs : List (List Json)) (w : Nat) : List (List Json) :=
+  match qs[w]? with
+  | some (_ :: rest) => qs.set w rest
+  | _ => qs
+
+/-- how a schedule empties the queues — the sink plays no part in it -/
+def drain (queues : List (List Json)) (schedule : List Nat) : List (List Json) :=
+  schedule.foldl drainStep queues
+
+/-- the schedule lets every worker finish its queue -/
+def Complete (queues : List (List Json)) (schedule : List Nat) : Prop :=
+  (drain queues schedule).all List.isEmpty = true
+
+theorem step_queues (N : NumOps) (persist : Bool) (s : Run) (w : Nat) :
+    (s.step N persist w).queues = drainStep s.queues w := by
+  unfold Run.step drainStep
+  cases s.queues[w]? with
+  | none => rfl
+  | some q =>
+    cases q with
+    | nil => rfl
+    | cons r rest => simp only; split <;> rfl
+
+theorem exec_queues (N : NumOps) (persist : Bool) (sched : List Nat) (s : Run) :
+    (s.exec N persist sched).queues = drain s.queues sched := by
+  induction sched generalizing s with
+  | nil => rfl
+  | cons w ws ih =>
+    simp only [Run.exec, List.foldl_cons, drain] at ih ⊢
+    rw [ih (s.step N persist w), step_queues]
+
+theorem done_of_complete (N : NumOps) (persist : Bool) (sink : FileSink) (queues : List (List Json))
+    (schedule : List Nat) (h : Complete queues schedule) :
+    ((Run.init sink queues).exec N persist schedule).done = true := by
+  unfold Run.done
+  rw [exec_queues]
+  exact h
+
 theorem done_flatten_nil (s : Run) (h : s.done = true) : s.queues.flatten = [] := by
   unfold Run.done at h
   rw [List.all_eq_true] at h
